@@ -229,7 +229,7 @@ class State:
             raise Infeasible()
 
     # ---- proving
-    def prove_le0(self, lin):
+    def prove_le0(self, lin, fast=False):
         u = self.ub(lin)
         if u is not None and u <= 0:
             return True
@@ -240,6 +240,8 @@ class State:
             u = self.ub(lin - c)
             if u is not None and u <= 0:
                 return True
+        if fast:
+            return False
         n = len(cons)
         if n <= 40:
             for i in range(n):
@@ -249,6 +251,8 @@ class State:
                     if u is not None and u <= 0:
                         return True
         # two-step: constraints sharing symbols with a first-level remainder
+        if len(self.cons) > 120:
+            return False
         for c in cons:
             d1 = lin - c
             for c2 in self.cons:
@@ -659,7 +663,7 @@ def join_states(an, a, b, frame, bb, widen=False):
         pass
     # constraints: keep those valid in both
     for c in a.cons:
-        if c in b.cons or b.prove_le0(c):
+        if c in b.cons or b.prove_le0(c, fast=True):
             r.cons.add(c)
         else:
             changed = True
@@ -667,7 +671,7 @@ def join_states(an, a, b, frame, bb, widen=False):
                 print('   cons-drop bb%s %r' % (bb, c))
     if not widen:
         for c in b.cons:
-            if c not in a.cons and a.prove_le0(c):
+            if c not in a.cons and a.prove_le0(c, fast=True):
                 r.cons.add(c)
     # relational facts on fresh phis: for each constraint of a mentioning the a-input (as lin_a + rest <= 0 form is
     # hard in general) we only transfer facts of the shape  x - e <= k  where e is a symbol-expression common to both
@@ -683,7 +687,7 @@ def join_states(an, a, b, frame, bb, widen=False):
                 if all(x not in d.co for x in lin.co):
                     cands.add(d)   # fact: lin + d <= 0
         for d in cands:
-            if a.prove_le0(la_ + d) and b.prove_le0(lb_ + d):
+            if a.prove_le0(la_ + d, fast=True) and b.prove_le0(lb_ + d, fast=True):
                 r.cons.add(ps + d)
         # interval-only relations that the join would lose: phi <= x / x <= phi for symbols x whose bounds differ
         for x in diff_syms:
